@@ -97,6 +97,32 @@ CORPUS = [
 ]
 
 
+def sync_monitor(case, out):
+    """after the exchanges of a bulk history observer 0 holds exactly owner 1's live keys and values"""
+    fv = fold_views(case, out)
+    ido = case["nodes"][1]["id"]
+    own, seen = fv.get((1, ido)), fv.get((0, ido))
+    live = lambda v: {e["k"]: e["v"] for e in v["entries"] if not e["del"]}
+    if own is None or seen is None:
+        return {"why": "the observer does not know the owner after the join/exchanges", "sig": "sync"}
+    if seen["ver"] == own["ver"] and live(seen) != live(own):
+        lo, ls = live(own), live(seen)
+        miss = sorted(k for k in lo if ls.get(k) != lo[k])[:3]
+        extra = sorted(k for k in ls if k not in lo)[:3]
+        return {"why": "observer has the owner's version %d but %d of the owner's %d live keys differ or are missing (e.g. %s) and %d keys the owner does not have (e.g. %s)"
+                       % (own["ver"], len([k for k in lo if ls.get(k) != lo[k]]), len(lo), [bytes.fromhex(k).decode("latin-1") for k in miss],
+                          len([k for k in ls if k not in lo]), [bytes.fromhex(k).decode("latin-1") for k in extra]), "sig": "sync"}
+    if seen["ver"] < own["ver"]:
+        ls = live(seen)
+        bad = sorted(e["k"] for e in own["entries"] if e["ver"] <= seen["ver"] and not e["del"] and ls.get(e["k"]) != e["v"])
+        if bad:
+            return {"why": "observer has seen the owner up to version %d of %d but %d keys last written at or below that version are missing or differ (e.g. %s)"
+                           % (seen["ver"], own["ver"], len(bad), [bytes.fromhex(k).decode("latin-1") for k in bad[:3]]), "sig": "sync"}
+    if seen["ver"] > own["ver"]:
+        return {"why": "observer is ahead of the owner (version %d > %d)" % (seen["ver"], own["ver"]), "sig": "sync"}
+    return None
+
+
 def run(ctx):
     rng = random.Random(ctx["seed"])
     n = 400 if ctx["tier"] == "quick" else 6000
@@ -124,6 +150,17 @@ def run(ctx):
         if f:
             violations.append({"what": "C17 monitor (writes concurrent with compaction): %s" % f["why"], "found_input": True,
                                "replay_obj": {"property": ID, "kind": "monitor-conc", "signature": f["sig"], "why": f["why"], "case": c}})
+            break
+    # observers that synchronise afterwards end up with the same live state: an owner with 130-260 keys (deleted, compacted),
+    # an observer that catches up through the join stream and/or many datagram exchanges (monitor only here; the same
+    # histories go through the model in C02)
+    bcases = [gen_bulk_case(rng, "bulk%d" % i) for i in range(3 if ctx["tier"] == "quick" else 40)]
+    bouts = run_world(binary, ctx["wd"], bcases, tag="bulk")
+    for c, o in zip(bcases, bouts):
+        f = {"why": "panic/timeout: " + o["panic"], "sig": "panic"} if o.get("panic") else sync_monitor(c, o)
+        if f:
+            violations.append({"what": "C17 monitor (observer synchronising with a large state): %s" % f["why"], "found_input": True,
+                               "replay_obj": {"property": ID, "kind": "monitor-bulk", "signature": f["sig"], "why": f["why"], "case": c}})
             break
     # correspondence (only on histories that ran to completion)
     okc = [(c, o) for c, o in zip(cases, outs) if not o.get("panic")]
